@@ -205,6 +205,30 @@ def run_shard(spec, acc):
                     if r is None or r.id != d.id:
                         acc.violation("selection-differs-frame-by-frame-or-under-id-filter", f"PGN {pgn}: {d.id} selected for the pre-assembled payload, "
                                       f"{'nothing' if r is None else r.id} returned via {n_}", {"pgn": pgn, "payload_hex": pb.hex(), "built_for": d.id, "variant": n_})
+        # constants the generated code of this PGN compares something with and the database does not explain (none in the
+        # pinned tree): each field of the definition takes that value once; the selection must be what the database says
+        from .. import harvest
+        for pgn_, did_, c_ in harvest.unexplained_constants(dbx):
+            if pgn_ != pgn or not d.fixed_layout:
+                continue
+            for f in d.fields:
+                if f.bits is None or f.off is None or f.match is not None:
+                    continue
+                for v in (c_, c_ - 1, c_ + 1):
+                    if not 0 <= v <= f.mask:
+                        continue
+                    nb_p = d.length if d.length is not None else (d.total_bits() + 7) // 8
+                    a = dbx.pack(d, gen.base_raws(d, rng, dbx))
+                    a = (a & ~(f.mask << f.off)) | (v << f.off)
+                    b = (a & ~(f.mask << f.off)) | (((v + 2) & f.mask) << f.off)
+                    ka, ga = observe(dec, pgn, a, nb_p)
+                    kb, gb = observe(dec, pgn, b, nb_p)
+                    acc.count("unexplained_generated_constants_tried")
+                    if "exc" in (ka, kb):
+                        continue
+                    if (ka, ga) != (kb, gb) and dbx.select(pgn, a) is dbx.select(pgn, b):
+                        acc.violation("selection-depends-on-non-match-bits", f"PGN {pgn}: {ga} with {f.id} = {v}, {gb} with {f.id} = {(v + 2) & f.mask}: the two payloads are equal on all match positions",
+                                      {"pgn": pgn, "a": a.to_bytes(nb_p, "little").hex(), "b": b.to_bytes(nb_p, "little").hex()})
         # pairs differing only outside match fields must select the same definition
         mm = 0
         for (off, bits) in positions:
